@@ -21,7 +21,8 @@ META = dict(
               "unsupported schema_name for QCSchema) x allow_changes; target absent / pre-existing; dump_many with the faulty "
               "frame at index 0, 1, 2 and list / generator iterables, empty sequence; a generator raising one of five "
               "exception types (incl. IOData's own LoadError / FileFormatError / WriteInputError) before frame 0, 1, 2; a fault injected at the k-th write "
-              "for every k up to 12 (and the last); unknown and unsupported formats; an un-openable target",
+              "for every k up to 12 (and the last); unknown and unsupported formats, also after a successful dump_one / load_one "
+              "of the same path (9 dump_one-only and 5 load-only formats); an un-openable target",
         thorough="as quick with a fault at the k-th write for every k up to 60 (and the last) and FCHK occupation vectors of three orbitals"),
     outside=["operating-system level faults other than a failing write()/open()", "threads"],
     assumptions=["open() in iodata.api/iodata.utils replaced by an in-memory file system that records open / truncate / "
@@ -362,6 +363,53 @@ def h_misc(ctx):
         ctx.oblige("file-closed-afterwards", _closed(ev), cls=case)
 
 
+LOAD_ONLY = {"water.com": "gaussianinput", "water.gro": "gromacs", "water_ccpvdz_pure_hf_g03.log": "gaussianlog",
+             "ch3_hf_sto3g_fchk_multiwfn3.7.mwfn": "mwfn", "atom_om2.cp2k.out": "cp2klog"}
+
+
+def h_unsupported_after_use(ctx, fmt="cube"):
+    """The answer for an unsupported operation does not depend on what was done with the same file name before:
+    dump_many to a dump_one-only format after a successful dump_one / load_one of that very path, and dump_one
+    to a load-only format after a successful load_one of that path, still raise FileFormatError and touch nothing."""
+    import os
+    import iodata.api as api
+    from iodata.iodata import IOData
+    with stubbed(api):
+        if fmt in DUMP_ONE:
+            path = ctx.tmp_path(FILENAMES[fmt])
+            data = IOData(**rich_object(ctx, fmt))
+            prior = ctx.choice(["none", "dump_one", "dump_one+load_one"], label="prior-use")
+            if prior != "none":
+                out0, _, _ = _run_dump(ctx, api, api.dump_one, data, path)
+                if prior.endswith("load_one"):      # (an unsuccessful earlier use is a history as well)
+                    try:
+                        api.load_one(path)
+                    except Exception:
+                        pass
+            before = ctx.read_text(path)
+            out, ev, _ = _run_dump(ctx, api, api.dump_many, [data, data], path)
+            cls = f"dump_many-to-{fmt},prior={prior}"
+        else:
+            here = os.path.join(os.path.dirname(api.__file__), "test", "data", fmt)
+            with open(here) as fh:
+                text = fh.read()
+            path = ctx.tmp_path(fmt)
+            ctx.write_text(path, text)
+            prior = ctx.choice(["none", "load_one"], label="prior-use")
+            if prior == "load_one":
+                try:
+                    api.load_one(path)
+                except Exception as e:
+                    raise core.PathAbort(f"prior load_one failed: {e!r}")
+            data = IOData(**rich_object(ctx, "xyz"))
+            before = ctx.read_text(path)
+            out, ev, _ = _run_dump(ctx, api, api.dump_one, data, path)
+            cls = f"dump_one-to-{LOAD_ONLY[fmt]},prior={prior}"
+    ctx.oblige("error-class-per-contract", out == "FileFormatError", cls=cls, detail=f"{out} (want FileFormatError)")
+    touched = [e for e in ev if e[0] in ("open", "truncate", "write")]
+    ctx.oblige("nothing-touched", not touched and ctx.read_text(path) == before, cls=cls)
+
+
 def jobs(tier):
     M = "harness.c08"
     out = []
@@ -388,4 +436,6 @@ def jobs(tier):
     for fmt in DUMP_MANY:
         out.append(job("C08", f"generator-error[{fmt}]", M, "h_generator_error", dict(fmt=fmt), validate=False))
     out.append(job("C08", "misc", M, "h_misc", {}, validate=False))
+    for fmt in [f for f in DUMP_ONE if f not in DUMP_MANY] + list(LOAD_ONLY):
+        out.append(job("C08", f"unsupported-after-use[{fmt}]", M, "h_unsupported_after_use", dict(fmt=fmt), validate=False))
     return out
